@@ -16,7 +16,7 @@ from ..core import walk_own, norm, is_self_attr, AnalysisError
 from ..report import Ob, Floor
 from ..rules import twin, plumb
 from ..rules.effect import EffectIndex, OptionInfluence
-from ..abseval import Evaluator, Opaque
+from ..abseval import Evaluator, Opaque, Fork, Raised
 from .. import exceptions
 from .c13 import ALLOWED, allowed, INIT
 
@@ -63,8 +63,11 @@ def stem_tables(ctx, clause):
         obs.append(Ob(clause, "R-TABLE", "R-TABLE|longest-common-prefix|%s,%s" % (a, b), g.loc(), outs == [("return", want)],
                       "lcp(%r, %r) = %r" % (a, b, want) if outs == [("return", want)] else "expected %r, code gives %s" % (want, outs)))
     # sentinel
-    sent = p.const("shexer.core.profiling.class_profiler", "_MINIMAL_IRI_INIT")
-    ok = isinstance(sent, str) and len(sent) > 0 and not re.match(r"[A-Za-z]", sent)
+    try:
+        sent = p.const("shexer.core.profiling.class_profiler", "_MINIMAL_IRI_INIT")
+    except AnalysisError:
+        sent = None          # no string marker any more: the sequence rows below decide the fold whatever marks "nothing yet"
+    ok = sent is None or (isinstance(sent, str) and len(sent) > 0 and not re.match(r"[A-Za-z]", sent))
     obs.append(Ob(clause, "R-CONST", "R-CONST|min-iri-sentinel", "shexer/core/profiling/class_profiler.py:14", ok,
                   "the 'no instance seen yet' marker %r cannot be a common prefix of IRIs" % (sent,) if ok else
                   "the 'no instance seen yet' marker %r is also a possible fold result (common prefix of IRIs): once the prefix "
@@ -79,8 +82,8 @@ def stem_tables(ctx, clause):
                     isinstance(st.value, (ast.Dict, ast.List)) and not (st.value.keys if isinstance(st.value, ast.Dict) else st.value.elts):
                 env["self." + st.targets[0].attr] = {} if isinstance(st.value, ast.Dict) else []
         return env
-    for label, cur, inst, want in (("first instance", sent, "http://a/x", "http://a/x"), ("prefix collapsed to empty", "", "urn:b:y", ""),
-                                   ("normal fold", "http://a/x", "http://a/y", "http://a/")):
+    for label, cur, inst, want in ((("first instance", sent, "http://a/x", "http://a/x"), ("prefix collapsed to empty", "", "urn:b:y", ""),
+                                   ("normal fold", "http://a/x", "http://a/y", "http://a/")) if sent is not None else ()):
         store = {"cur": cur}
         sfe = {"shape_min_iri()": lambda d: d["cur"], "set_shape_min_iri()": None, "cur": cur}
         ev2 = Evaluator(ctx, watch={"set_shape_min_iri"})
@@ -96,23 +99,27 @@ def stem_tables(ctx, clause):
     import os.path
     seqs = [("shared path, names diverge after a ':'", ["http://a/r/Category:Dogs", "http://a/r/Category:Cats", "http://a/r/Template:X"]),
             ("urn without slash", ["urn:issn:1234", "urn:issn:1299", "urn:isbn:0451"]),
-            ("two hosts", ["http://a/x1", "http://a/x2", "http://b/x3"])]
+            ("two hosts", ["http://a/x1", "http://a/x2", "http://b/x3"]),
+            ("no common first character, then the first scheme again", ["http://a/x", "ldap://b/y", "http://a/z"]),
+            ("a single instance", ["http://a/only"])]
+    sfd = p.find_class("ShapeExampleFeaturesDict")
+    init_m = u.cls.find_method("_init_class_features_dict")
     for label, insts in seqs:
-        ev3 = Evaluator(ctx, watch={"set_shape_min_iri"})
-        sfe = {"shape_min_iri()": lambda d: d["cur"], "set_shape_min_iri()": None, "cur": sent}
-        selfenv = dict(base_env(), **{"self._shape_feature_examples": sfe})
-        ok, got = True, None
+        ev3 = Evaluator(ctx, max_depth=10)
+        ev3.concrete_classes = {"ShapeExampleFeaturesDict"}
+        ev3._yields = []
         try:
+            store = ev3.new(sfd, track_inverse_features=False)
+            selfenv = dict(base_env(), **{"self._shape_feature_examples": store, "self._class_counts": {"S": len(insts)}})
+            ev3._decisions, ev3._taken, ev3.effects = [], [], []
+            if init_m is not None:
+                ev3.call(init_m, {}, selfenv, 0)
             for inst in insts:
-                ev3._decisions, ev3._taken, ev3.effects, ev3._yields = [], [], [], []
+                ev3._decisions, ev3._taken, ev3.effects = [], [], []
                 ev3.call(u, {"target_shape": "S", "instance_iri": inst}, selfenv, 0)
-                for e in ev3.effects:
-                    kw = dict(x for x in e[1:] if isinstance(x, tuple) and len(x) == 2)
-                    if "min_iri" in kw:
-                        sfe["cur"] = kw["min_iri"]
-            got = sfe["cur"]
-        except Exception as e:          # Fork / AnalysisError: the row cannot be evaluated
-            raise AnalysisError("min-IRI fold sequence not evaluable: %s" % e)
+            got = ev3.invoke(store, "shape_min_iri", [], {"shape_id": "S"}, 0)
+        except (Fork, Raised) as e:
+            raise AnalysisError("min-IRI fold sequence not evaluable: %s" % (getattr(e, "exc", None) or type(e).__name__))
         rows += 1
         want = os.path.commonprefix(insts)
         ok = got == want
@@ -120,6 +127,24 @@ def stem_tables(ctx, clause):
                       "%s: after %d instances the stored prefix is their common prefix %r" % (label, len(insts), want) if ok else
                       "%s: after folding %s the stored prefix is %r, their common prefix is %r" % (label, insts, got, want)))
     return obs, rows
+
+
+def example_rendering_table(ctx, clause):
+    """The example printed for a constraint is the stored value itself: a literal comes out between quotes with its lexical
+    form untouched (blanks, tabs and double spaces included), an IRI between corners or prefixed."""
+    p = ctx.p
+    f = p.method("ShexSerializer", "_turn_str_comment_into_proper_rdf")
+    rows = [("plain", '"plain"'), ("A-1 ", '"A-1 "'), ("Alice  B.  Smith", '"Alice  B.  Smith"'), (" lead", '" lead"'), ("tab\there", '"tab\there"'),
+            ("http://other.org/x", "<http://other.org/x>"), ("http://e/x", "e:x")]
+    obs = []
+    for val, want in rows:
+        ev = Evaluator(ctx, max_depth=8)
+        outs = ev.outcomes(f, {f.bound_params[0]: val}, {"self._namespaces_dict": {"http://e/": "e"}})
+        ok = outs == [("return", want)]
+        obs.append(Ob(clause, "R-TABLE", "R-TABLE|example-rendering|%r" % val, f.loc(), ok,
+                      "example value %r is printed as %s" % (val, want) if ok else
+                      "example value %r: expected %s, code prints %s - the example shown is no longer the value found in the data" % (val, want, outs)))
+    return obs
 
 
 def example_pairing(ctx, clause):
@@ -227,6 +252,7 @@ def check(ctx, tier):
         obs += ctx.attempt(lambda c, cl, o=_opt: plumb.forwarding(c, cl, o, lambda prm: prm == o,
                                                                    [c.flow.param("shexer.shaper:Shaper.__init__", o)],
                                                                    skip_funcs={"shexer.shaper:Shaper.__init__"})[0], ctx, "D-e", default=[])
+    obs += ctx.attempt(example_rendering_table, ctx, "D-f", default=[])
     exceptions.apply(obs)
     return {"obs": obs, "floors": [Floor("stem / fold table rows", rows, 20), Floor("example bookkeeping sites", n_ex, 6),
                                    Floor("option control sites", nsites, 15)],
